@@ -317,25 +317,51 @@ def r5_1(ctx):
     ctx.floor(n_methods, 9, "methods that store _text/_length")
 
 
+def _acc_increments(f, name: str):
+    """[(statement, increment expression)] for `name += E` and for the two-step form `t = name + E ... name = t`
+    (t assigned once, in the same block, before the copy back)"""
+    out = []
+    for n in walk_local(f.node):
+        if isinstance(n, ast.AugAssign) and isinstance(n.target, ast.Name) and n.target.id == name and isinstance(n.op, ast.Add):
+            out.append((n, n.value))
+        elif isinstance(n, ast.Assign) and len(n.targets) == 1 and isinstance(n.targets[0], ast.Name) and n.targets[0].id == name and isinstance(n.value, ast.Name):
+            t = n.value.id
+            block = f.module.parent_of.get(n)
+            defs = [d for d in walk_local(f.node) if isinstance(d, ast.Assign) and len(d.targets) == 1 and norm(d.targets[0]) == t and f.module.parent_of.get(d) is block and d.lineno < n.lineno]
+            if len(defs) >= 1:
+                d = defs[-1]
+                v = d.value
+                if isinstance(v, ast.BinOp) and isinstance(v.op, ast.Add):
+                    if norm(v.left) == name:
+                        out.append((n, v.right))
+                    elif norm(v.right) == name:
+                        out.append((n, v.left))
+    return out
+
+
 def _is_accumulator(f, name: str) -> bool:
-    return any(isinstance(n, ast.AugAssign) and isinstance(n.target, ast.Name) and n.target.id == name and isinstance(n.op, ast.Add) for n in walk_local(f.node))
+    return bool(_acc_increments(f, name))
 
 
 def _check_accumulator(f, g, rd, sym: Sym, obj: str, acc: str, ots) -> Tuple[bool, str, Set[int]]:
     mod = f.module
     used: Set[int] = set()
-    inits = [n for n in walk_local(f.node) if isinstance(n, ast.Assign) and len(n.targets) == 1 and norm(n.targets[0]) == acc]
+    inc_stmts = {id(st_) for st_, _e in _acc_increments(f, acc)}
+    inits = [n for n in walk_local(f.node) if isinstance(n, ast.Assign) and len(n.targets) == 1 and norm(n.targets[0]) == acc and id(n) not in inc_stmts]
     if len(inits) != 1:
         return False, f"`{acc}` is initialised {len(inits)} times", used
     init = inits[0].value
     init_ok = norm(init) in (f"len({obj})", f"{obj}._length") or (const_int(init) == 0 and _is_blank(f, obj))
     if not init_ok:
         return False, f"`{acc}` starts at `{norm(init)}`, not at the current length of {obj}", used
-    incs = [n for n in walk_local(f.node) if isinstance(n, ast.AugAssign) and isinstance(n.target, ast.Name) and n.target.id == acc]
+    class _Inc:
+        def __init__(self, stmt, value):
+            self.stmt, self.value = stmt, value
+    incs = [_Inc(st_, e_) for st_, e_ in _acc_increments(f, acc)]
     for kind, _o, expr, st in ots:
         if kind not in ("append", "extend"):
             continue
-        inc = [i for i in incs if _same_loop(mod, st, i, f.node)]
+        inc = [i for i in incs if _same_loop(mod, st, i.stmt, f.node)]
         if not inc:
             return False, f"`{short(st)}` adds text that is never added to `{acc}`", used
         nid = g.nodes_of(st)[0]
@@ -345,7 +371,7 @@ def _check_accumulator(f, g, rd, sym: Sym, obj: str, acc: str, ots) -> Tuple[boo
             el = sym.len_of(expr, nid)
         total: Lin = {}
         for i in inc:
-            total = _add(total, sym.int_of(i.value, g.nodes_of(i)[0]))
+            total = _add(total, sym.int_of(i.value, g.nodes_of(i.stmt)[0]))
         if not lin_eq(_canon(total), _canon(el)):
             return False, f"per iteration `{acc}` grows by `{show(total)}` while the appended fragment has length `{show(el)}`", used
         used.add(id(st))
@@ -397,12 +423,24 @@ def _discharged(f, g, st, cond: str) -> bool:
         return False
     if kval < 1:
         return False
+    from ..astutil import inline as _inl, single_defs as _sdf
+    from ..yieldpaths import canon_test as _ct
+    sd = _sdf(f.node)
+    try:
+        base_c = norm(_inl(ast.parse(base, mode="eval").body, sd))
+    except SyntaxError:
+        base_c = base
     for nid in g.nodes_of(st):
-        for t, v in g.branch_facts(nid):
-            if v is True and isinstance(t, ast.Call) and isinstance(t.func, ast.Attribute) and t.func.attr == "endswith" and norm(t.func.value) == base:
-                a = t.args[0] if t.args else None
-                if isinstance(a, ast.Constant) and isinstance(a.value, str) and len(a.value) >= kval:
-                    return True
+        for t0, v0 in g.branch_facts(nid):
+            for atom, v in _ct(_inl(t0, sd), v0):
+                try:
+                    t = ast.parse(atom, mode="eval").body
+                except SyntaxError:
+                    continue
+                if v is True and isinstance(t, ast.Call) and isinstance(t.func, ast.Attribute) and t.func.attr == "endswith" and norm(t.func.value) in (base, base_c):
+                    a = t.args[0] if t.args else None
+                    if isinstance(a, ast.Constant) and isinstance(a.value, str) and len(a.value) >= kval:
+                        return True
     return False
 
 
@@ -502,15 +540,35 @@ def r5_2(ctx):
                       "append(str): the span for the appended text does not start at the length the text had before the append")
     # join: offset accumulates len(text) per piece
     j = m.fn("Text.join")
-    src = norm(j.node)
-    ok = "_Span(offset + start, offset + end, style)" in src and "offset += len(text)" in src and "_Span(offset, offset + len(text), text.style)" in src
+    from ..astutil import inline as _inl, single_defs as _sdf
+    jsd = _sdf(j.node)
+    jal = alias_map(j.node)
+    loops_j = [lp for lp in walk_local(j.node) if isinstance(lp, ast.For) and "iter_text" in norm(lp.iter) and isinstance(lp.target, ast.Name)]
+    ok = len(loops_j) == 1
+    okinc = False
+    if ok:
+        lp = loops_j[0]
+        piece = lp.target.id
+        spans_ = [c for c in ast.walk(lp) if isinstance(c, ast.Call) and norm(expand_alias(c.func, jal)) in ("Span", "_Span") and len(c.args) == 3]
+        accs = {norm(c.args[0]) for c in spans_ if isinstance(c.args[0], ast.Name)} | {norm(c.args[0].left) for c in spans_ if isinstance(c.args[0], ast.BinOp) and isinstance(c.args[0].op, ast.Add)}
+        acc = next(iter(accs)) if len(accs) == 1 else None
+        shifted = base = False
+        for c in spans_:
+            a0, a1, a2 = c.args
+            if isinstance(a0, ast.BinOp):
+                # a span of the piece, shifted: (acc + start, acc + end, style) with (start, end, style) from iterating piece._spans
+                src_loops = [x for x in ast.walk(lp) if isinstance(x, (ast.For, ast.comprehension)) and norm(x.iter) == f"{piece}._spans" and isinstance(x.target, ast.Tuple) and len(x.target.elts) == 3]
+                if src_loops and acc is not None:
+                    tv = [norm(e) for e in src_loops[0].target.elts]
+                    shifted = norm(a0) == f"{acc} + {tv[0]}" and norm(a1) == f"{acc} + {tv[1]}" and norm(a2) == tv[2]
+            else:
+                base = acc is not None and norm(a0) == acc and norm(_inl(a1, jsd, keep=(acc,))) == f"{acc} + len({piece})" and norm(a2) == f"{piece}.style"
+        ok = shifted and base
+        incs_j = _acc_increments(j, acc) if acc else []
+        okinc = len(incs_j) == 1 and norm(incs_j[0][1]) == f"len({piece})" and incs_j[0][0] is lp.body[-1]
     n += 1
     ctx.check(ok, j.fq, "join offsets", j.where, "join shifts each piece's spans by the accumulated length", "join: spans of a piece are not shifted by the total length of the pieces before it")
-    # the increment happens after the spans of that piece were added
-    for lp in walk_local(j.node):
-        if isinstance(lp, ast.For) and "iter_text" in norm(lp.iter):
-            last = lp.body[-1]
-            ctx.check(isinstance(last, ast.AugAssign) and norm(last.target) == "offset", j.fq, short(last), f"{m.relpath}:{last.lineno}", "offset advanced after the piece's spans were placed", "join advances the offset before placing the piece's spans")
+    ctx.check(okinc, j.fq, "offset += len(piece)", j.where, "offset advanced by the piece's length after the piece's spans were placed", "join advances the offset before placing the piece's spans (or not by the piece's length)")
     ctx.floor(n, 6, "span shift sites")
 
 
@@ -803,7 +861,10 @@ def r5_5(ctx):
     s = cm.fn("strip_control_codes")
     ctx.check("text.translate(_translate_table)" in norm(s.node), s.fq, "translate", s.where, "strip_control_codes is str.translate with the strip table", "strip_control_codes is no longer a translate over the strip table")
     tbl = cm.global_assign("_CONTROL_TRANSLATE")
-    ctx.check(norm(tbl) == "{_codepoint: None for _codepoint in STRIP_CONTROL_CODES}", "control:_CONTROL_TRANSLATE", norm(tbl), f"{cm.relpath}:{tbl.lineno}", "table deletes exactly STRIP_CONTROL_CODES", "the translate table does not delete exactly the listed control codes")
+    tbl_ok = norm(tbl) in ("{_codepoint: None for _codepoint in STRIP_CONTROL_CODES}", "str.maketrans('', '', ''.join(map(chr, STRIP_CONTROL_CODES)))", "dict.fromkeys(STRIP_CONTROL_CODES)", "dict.fromkeys(STRIP_CONTROL_CODES, None)")
+    if not tbl_ok and isinstance(tbl, ast.DictComp) and len(tbl.generators) == 1 and norm(tbl.generators[0].iter) == "STRIP_CONTROL_CODES" and not tbl.generators[0].ifs and norm(tbl.key) == norm(tbl.generators[0].target) and isinstance(tbl.value, ast.Constant) and tbl.value.value is None:
+        tbl_ok = True
+    ctx.check(tbl_ok, "control:_CONTROL_TRANSLATE", norm(tbl), f"{cm.relpath}:{tbl.lineno}", "table deletes exactly STRIP_CONTROL_CODES", "the translate table does not delete exactly the listed control codes")
 
 
 def r5_6(ctx):
@@ -828,17 +889,25 @@ def r5_6(ctx):
     ctx.check(ok, f.fq, norm(sp_assign) if sp_assign is not None else "?", f"{m.relpath}:{md.lineno}", "spaces to the next tab stop = tab_size - ((pos - 1) % tab_size) - 1 (pos already counts the tab's own cell)",
               f"the number of spaces inserted for a tab is `{norm(sp_assign.value) if isinstance(sp_assign, ast.Assign) else '?'}`, not tab_size - (({pos} - 1) % tab_size) - 1")
     spaces = norm(sp_assign.targets[0]) if isinstance(sp_assign, ast.Assign) else "spaces"
-    # the tab branch
-    tab_if = None
-    for x in walk_local(f.node):
-        if isinstance(x, ast.If) and "endswith('\\t')" in norm(x.test):
-            tab_if = x
-    if tab_if is None:
-        raise AnalysisError("expand_tabs: tab branch not found")
+    # the tab branch = statements that execute under the fact `<part>.plain.endswith('\\t')` (CFG branch facts, tests
+    # canonicalised and temporaries inlined, so nested ifs, a flag variable or guard-continue are the same thing)
+    from ..astutil import inline as _inl, single_defs as _sdf
+    from ..yieldpaths import canon_test as _ct
+    g6 = cfgmod.build(f.node)
+    sd6 = _sdf(f.node)
+
+    def in_tab_branch(stmt):
+        for nid in g6.nodes_of(stmt):
+            for t0, v0 in g6.branch_facts(nid):
+                for atom, v in _ct(_inl(t0, sd6), v0):
+                    if atom.endswith(".endswith('\\t')") and v is True:
+                        return True
+        return False
     updates = [x for x in walk_local(f.node) if (isinstance(x, ast.AugAssign) and norm(x.target) == pos) or (isinstance(x, ast.Assign) and any(norm(t) == pos for t in x.targets))]
-    in_tab = set()
-    for b in ast.walk(ast.Module(body=tab_if.body, type_ignores=[])):
-        in_tab.add(id(b))
+    in_tab = {id(u) for u in updates if in_tab_branch(u)}
+    if not any(in_tab_branch(x) for x in walk_local(f.node) if isinstance(x, ast.stmt)):
+        raise AnalysisError("expand_tabs: tab branch not found")
+    tab_if = f.node
     seq = [norm(u) for u in updates if id(u) in in_tab]
     ok = seq == [f"{pos} += len(part)", f"{pos} += {spaces}"]
     ctx.check(ok, f.fq, " ; ".join(seq), f"{m.relpath}:{tab_if.lineno}", "in the tab branch the counter advances by the part's length, then by the inserted spaces (so it is a multiple of tab_size after every tab)",
@@ -852,7 +921,7 @@ def r5_6(ctx):
         ctx.violation(f.fq, norm(u), where, f"`{norm(u)}` advances the column counter outside the tab branch without resetting it at the start of each line: the counter keeps counting across newlines, so tabs on later lines expand to the wrong number of spaces (differs from str.expandtabs)")
     ctx.check(any(isinstance(u, ast.Assign) and norm(u.value) == "0" for u in updates), f.fq, f"{pos} = 0", f.where, "counter starts at column 0", "the column counter is never initialised to 0")
     # the tab itself becomes one space, same length
-    ok = "part._text = [part.plain[:-1] + ' ']" in norm(f.node)
+    ok = any(isinstance(x, ast.Assign) and norm(x.targets[0]) == "part._text" and norm(_inl(x.value, sd6)) == "[part.plain[:-1] + ' ']" and in_tab_branch(x) for x in walk_local(f.node))
     ctx.check(ok, f.fq, "part._text = [part.plain[:-1] + ' ']", f.where, "the tab character itself is replaced by one space", "the tab character is not replaced by exactly one space")
 
 
